@@ -104,7 +104,11 @@ def predict(cfg, rng, q=None, msgs=None):
     nrm = float(np.sqrt(np.sum(r * r)))
     warned = any('Newton solve did not get close' in m for m in (msgs or []))
     n += 1
-    if not (nrm <= 1e-9) and not warned:
+    # the code's own residual (matrix arithmetic) and this independent evaluation (FFT derivative) differ by rounding of the TERMS of the equation
+    E_ = q.etabar ** 2 / q.curvature ** 2
+    terms = np.abs(dvarphi_indep(q, q.sigma)) + np.abs((q.iota + q.helicity * q.nfp) * (E_ * E_ + 1 + q.sigma * q.sigma)) + np.abs(2 * E_ * (-q.spsi * q.torsion + q.I2 / q.B0) * q.G0 / q.B0)
+    slack = 200 * np.finfo(float).eps * float(np.sqrt(np.sum(terms * terms))) * max(1.0, float(np.sqrt(q.nphi)))
+    if not (nrm <= 1e-9 + slack) and not warned:
         out.append(dict(key='silent', what='sigma equation residual norm %.3g > 1e-9 at the returned solution and no warning was logged' % nrm, cfg=jsonable(cfg)))
     n += 1
     if q.sigma[0] != q.sigma0:
